@@ -24,7 +24,7 @@ CHECKS = {
  "C03": ([E1], "bounded-exhaustive enumeration of operator chains x event histories on the real operators, compared step by step with a list-based reference interpreter",
          "Every chain of catalogue operators up to the depth bound is run on every event history up to the length bound (hot subject, hot create(), cold create()/from_iter() delivery, every basic source, the sources also observed by a subscriber that reports itself finished after 0-2 notifications) and the probe trace must equal the reference interpreter after every single event; nothing is sampled.", "5/C03"),
  "C04": ([E1, E2], "bounded-exhaustive enumeration of merged input timelines on the real two-input operators, compared step by step with per-operator reference functions; plus exhaustive preemption-bounded DFS over interleavings of two threads driving the two inputs of the _threads forms (final-state oracle)",
-         "For every two-input combinator in both forms every merged timeline of the two inputs up to the length bound (terminals of either input at every position, cold synchronous inputs on either side) is executed and compared with the reference function after every event.", "5/C04"),
+         "For every two-input combinator in both forms every merged timeline of the two inputs up to the length bound (terminals of either input at every position, cold synchronous inputs on either side) is executed and compared with the reference function after every event; with one thread per input every schedule within the preemption bound is executed and the output is compared with what the definition allows for any interleaving (pairing, one-step combinations, prefix / suffix / concatenation clauses, completion).", "5/C04"),
  "C05": ([E1, E2], "bounded-exhaustive enumeration of outer/inner event interleavings on the real flattening operators against a FIFO reference model, with a live-subscription counter and hang/panic detection; plus exhaustive preemption-bounded DFS over interleavings of the outer-delivering and an inner-completing thread on merge_all_threads",
          "Every interleaving up to the length bound of outer items/terminals and inner items/terminals over cold and hot inner observables is run through merge_all(n)/concat_all/flatten/flat_map/concat_map (both forms); exact output, concurrency limit, and return of every call are checked at every step.", "5/C05"),
  "C06": ([E1, E2], "bounded-exhaustive enumeration of operation sequences on the five real subject types against a list model; plus exhaustive preemption-bounded DFS over interleavings of 2-3 threads sharing a SubjectThreads",
